@@ -430,6 +430,10 @@ pub fn gen_layout(r: &mut Rng, max_entries: u64, max_content: u64, with_enc: boo
         if matches!(e.method, 8 | 12) && r.chance(1, 25) {
             e.trailing_pad = r.pickc(&[1u32, 10, 300, 40_000]);
         }
+        if r.chance(1, 8) {
+            // the compression-effort hint (Info-ZIP -1 / -9, 7-Zip -mx): bits a reader has no business with
+            e.gp_hint = r.pickc(&[2u16, 4, 6]);
+        }
         if with_enc && r.chance(1, 3) {
             e.enc = Some(if r.chance(1, 2) {
                 Enc::ZipCrypto { pw: Hex(r.rbytes(0, 8)), infozip: r.chance(1, 2) }
